@@ -8,6 +8,7 @@ import (
 	"go/token"
 	"go/types"
 	"os"
+	"sort"
 	"strings"
 
 	"slices"
@@ -169,7 +170,14 @@ func generateAdaptor(w genfp.Writer, gad generator.GenerateAdaptorDirective) {
 		}
 	}
 
-	for k, e := range gad.ExtendsWith {
+	// iterate in key order: the generated file must not depend on map iteration order
+	extendsKeys := make([]string, 0, len(gad.ExtendsWith))
+	for k := range gad.ExtendsWith {
+		extendsKeys = append(extendsKeys, k)
+	}
+	sort.Strings(extendsKeys)
+	for _, k := range extendsKeys {
+		e := gad.ExtendsWith[k]
 		if !fieldSet.Contains(k) {
 			fieldList = append(fieldList, fmt.Sprintf("%s %s", k, typeDecl(gad.Package, w, e)))
 		}
@@ -231,7 +239,13 @@ func generateAdaptor(w genfp.Writer, gad generator.GenerateAdaptorDirective) {
 		}
 	}
 
-	for k, opt := range gad.Methods {
+	methodKeys := make([]string, 0, len(gad.Methods))
+	for k := range gad.Methods {
+		methodKeys = append(methodKeys, k)
+	}
+	sort.Strings(methodKeys)
+	for _, k := range methodKeys {
+		opt := gad.Methods[k]
 		if !methodSet.Contains(k) && opt.Delegate != nil {
 			// gad.Method 는 사용자가 지정하지 않아도
 			// 지정한 interface 와 embedding interface 의 method가 모두 추가 된다.
